@@ -349,7 +349,7 @@ def expected(t):
         return [b'n:' + t[1].lower().encode()]
     if k == 'un':
         c = t[2]
-        if c[0] == 'num' and t[1] in ('+', '-'):
+        if c[0] in ('num', 'hex') and t[1] in ('+', '-'):
             v = c[2]
             if t[1] == '-':
                 v = '-' + v
